@@ -24,6 +24,7 @@ type CEnv struct {
 	globalOf func(*types.Var) (Term, bool)
 	pre      *CEnv
 	iter     *CEnv
+	bound    map[string]Term // quantifier-bound variables (visible inside old/pre/iter too)
 }
 
 func (w *World) newEnv(pkg *packages.Package) *CEnv {
@@ -32,7 +33,10 @@ func (w *World) newEnv(pkg *packages.Package) *CEnv {
 }
 
 func (e *CEnv) child() *CEnv {
-	c := &CEnv{w: e.w, pkg: e.pkg, vars: map[string]Term{}, old: e.old, depth: e.depth, nq: e.nq, lookup: e.lookup, pre: e.pre, iter: e.iter, globalOf: e.globalOf}
+	c := &CEnv{w: e.w, pkg: e.pkg, vars: map[string]Term{}, old: e.old, depth: e.depth, nq: e.nq, lookup: e.lookup, pre: e.pre, iter: e.iter, globalOf: e.globalOf, bound: map[string]Term{}}
+	for k, v := range e.bound {
+		c.bound[k] = v
+	}
 	for k, v := range e.vars {
 		c.vars[k] = v
 	}
@@ -245,6 +249,7 @@ func (e *CEnv) eval(x CExpr) Term {
 			binds = append(binds, "("+name+" "+e.reg().SortOf(ty)+")")
 			tm := Term{S: name, T: ty}
 			c.vars[v] = tm
+			c.bound[v] = tm
 			if rf := e.reg().rangeFact(tm, 0); rf != "true" {
 				ranges = append(ranges, rf)
 			}
@@ -359,17 +364,17 @@ func (e *CEnv) call(n *CCall) Term {
 			if e.old == nil {
 				cfail("old() not available here")
 			}
-			return e.old.eval(n.Args[0])
+			return e.withBound(e.old).eval(n.Args[0])
 		case "iter":
 			if e.iter == nil {
 				cfail("iter() only available in loop step clauses")
 			}
-			return e.iter.eval(n.Args[0])
+			return e.withBound(e.iter).eval(n.Args[0])
 		case "pre":
 			if e.pre == nil {
 				cfail("pre() only available in loop contracts")
 			}
-			return e.pre.eval(n.Args[0])
+			return e.withBound(e.pre).eval(n.Args[0])
 		case "len", "cap":
 			v := e.autoDeref(e.eval(n.Args[0]))
 			switch v.T.Underlying().(type) {
@@ -639,4 +644,17 @@ func (e *CEnv) globalsOnly() func(string) (Term, bool) {
 		}
 		return Term{}, false
 	}
+}
+
+// withBound: the other-state environment extended with the quantified variables in scope.
+func (e *CEnv) withBound(o *CEnv) *CEnv {
+	if len(e.bound) == 0 {
+		return o
+	}
+	c := o.child()
+	for k, v := range e.bound {
+		c.vars[k] = v
+		c.bound[k] = v
+	}
+	return c
 }
